@@ -1,4 +1,5 @@
 import EupsModel.Model.Setup
+import EupsModel.Lemmas.PathAlg
 /-! Basic lemmas for the setup model: association lists, `uniq`, environment updates, database lookups. -/
 namespace EupsModel.Setup
 
@@ -52,23 +53,6 @@ theorem aget_mem (l : List (κ × β)) (k : κ) (v : β) (h : aget l k = some v)
 
 end AList
 
-/-! ## `uniq` -/
-
-theorem mem_uniq (l : List Elem) (x : Elem) : x ∈ uniq l ↔ x ∈ l := by
-  induction l with
-  | nil => simp [uniq]
-  | cons y ys ih =>
-    simp only [uniq, List.mem_cons, List.mem_filter, ih]
-    constructor
-    · rintro (h | ⟨h, _⟩)
-      · exact Or.inl h
-      · exact Or.inr h
-    · rintro (h | h)
-      · exact Or.inl h
-      · by_cases hxy : x = y
-        · exact Or.inl hxy
-        · exact Or.inr ⟨h, by simpa using hxy⟩
-
 /-! ## environments -/
 
 @[simp] theorem addPath_recs (e : Env) (var : Str) (x : Elem) (b : Bool) : (e.addPath var x b).recs = e.recs := rfl
@@ -89,9 +73,9 @@ theorem pathOf_addPath_other (e : Env) (var var2 : Str) (x : Elem) (b : Bool) (h
 theorem mem_pathOf_addPath_same (e : Env) (var : Str) (x y : Elem) (b : Bool) :
     y ∈ (e.addPath var x b).pathOf var ↔ y = x ∨ y ∈ e.pathOf var := by
   have : (e.addPath var x b).pathOf var =
-      uniq (if b then e.pathOf var ++ [x] else x :: e.pathOf var) := by
-    simp [Env.addPath, Env.pathOf, aget_aset_same]
-  rw [this, mem_uniq]
+      PathAlg.uniq (if b then e.pathOf var ++ [x] else x :: e.pathOf var) := by
+    cases b <;> simp [Env.addPath, Env.pathOf, aget_aset_same, PathAlg.applyL, PathAlg.appendL, PathAlg.prependL]
+  rw [this, PathAlg.mem_uniq]
   cases b <;> simp [or_comm]
 
 theorem mem_pathOf_addPath (e : Env) (var var2 : Str) (x y : Elem) (b : Bool)
@@ -109,9 +93,9 @@ theorem pathOf_removePath_other (e : Env) (var var2 : Str) (x : Elem) (h : var2 
 
 theorem mem_pathOf_removePath_same (e : Env) (var : Str) (x y : Elem) :
     y ∈ (e.removePath var x).pathOf var ↔ y ∈ e.pathOf var ∧ y ≠ x := by
-  have : (e.removePath var x).pathOf var = uniq ((e.pathOf var).filter (· ≠ x)) := by
-    simp [Env.removePath, Env.pathOf, aget_aset_same]
-  rw [this, mem_uniq]; simp
+  have : (e.removePath var x).pathOf var = PathAlg.uniq ((e.pathOf var).filter (· != x)) := by
+    simp [Env.removePath, Env.pathOf, aget_aset_same, PathAlg.applyL, PathAlg.removeL]
+  rw [this, PathAlg.mem_uniq]; simp
 
 theorem mem_pathOf_removePath (e : Env) (var var2 : Str) (x y : Elem)
     (h : y ∈ (e.removePath var x).pathOf var2) : y ∈ e.pathOf var2 ∧ (var2 = var → y ≠ x) := by
